@@ -1,4 +1,4 @@
-import GardenVerif.Lemmas.Parse
+import GardenVerif.Props.C33
 /-!
 C03 — Operator chains are left-associative with uniform precedence.
 
@@ -15,6 +15,10 @@ calls `f(a, …)` whose arguments are arbitrary chains, and parenthesised chains
 operand the parser gets back into the trailing loop holding exactly `e`) for all of them.
 Operators: any member of `Parse.gardenBinaryOps` (the table of `token_as_binary_op`; the proofs use
 only that a member is none of `( . :: = += -= {`, checked by `decide` over the table).
+
+`chain_left_assoc_all` (end of the file) is the same statement for operands of EVERY closed kind
+(`RT.WT .closed` of Props/C33.lean: also strings, floats, method calls, dot / `::` access, lists,
+tuples, dictionaries, struct literals, lambdas, `assert`, `if` / `while` / `for` / `match` / `try`).
 -/
 
 namespace C03
@@ -158,4 +162,56 @@ theorem fixed_chain_witness :
     (resExpr (parseExpressionT witnessToks false true 40 ⟨0, []⟩)).map shapeOf = some "(((10-1)-1)-1)" := by
   decide
 
+/-! ### Every operand kind
+
+The theorems above are about the operand fragment `WF` (literals, variables, calls, parentheses). With
+the whole-grammar development of Props/C33.lean the same holds for operands of EVERY closed kind
+(`RT.WT .closed`: also strings, floats, method calls, dot / `::` access, lists, tuples, dictionaries,
+struct literals, lambdas, `assert`, `if` / `while` / `for` / `match` / `try` expressions, `break`,
+`continue`), nested to any depth. -/
+
+/-- The canonical text of the left fold is `x₀ op₁ x₁ … opₙ xₙ`. -/
+theorem chain_print (first : Bool) (x₀ : Expr) (rest : List (String × Expr)) :
+    printExpr first (chainExpr x₀ rest) =
+      printExpr first x₀ ++ rest.flatMap (fun p => w p.1 :: printExpr false p.2) := by
+  induction rest generalizing x₀ with
+  | nil => simp [chainExpr]
+  | cons p r ih =>
+    have := ih (.binop x₀ p.1 p.2)
+    simp only [chainExpr, List.foldl_cons] at this ⊢
+    rw [this]
+    simp [printExpr]
+
+theorem chain_wt (x₀ : Expr) (rest : List (String × Expr)) (h0 : RT.WT .chain x₀)
+    (hr : ∀ p ∈ rest, gardenBinaryOps.contains p.1 = true ∧ RT.WT .closed p.2) :
+    RT.WT .chain (chainExpr x₀ rest) := by
+  induction rest generalizing x₀ with
+  | nil => exact h0
+  | cons p r ih =>
+    have hp := hr p (List.mem_cons_self ..)
+    exact ih (.binop x₀ p.1 p.2) (.binop h0 hp.1 hp.2) (fun q hq => hr q (List.mem_cons_of_mem _ hq))
+
+/-- **C03 for every operand kind.** For every closed operand `x₀` and every list of (operator, closed
+operand) pairs, in every token context whose remainder does not continue the expression (`RT.Stop`):
+on the tokens of `x₀ op₁ x₁ … opₙ xₙ` the parser returns the LEFT fold `((x₀ op₁ x₁) op₂ x₂) …`,
+consumes exactly those tokens and reports no diagnostic, for every fuel above a bound depending only
+on the chain. -/
+theorem chain_left_assoc_all (x₀ : Expr) (rest : List (String × Expr)) (h0 : RT.WT .closed x₀)
+    (hr : ∀ p ∈ rest, gardenBinaryOps.contains p.1 = true ∧ RT.WT .closed p.2) :
+    ∃ n, ∀ (fuel ln : Nat) (first : Bool) (i : Nat) (post : List Tok) (d : List DiagKind) (toks : Toks),
+      n ≤ fuel →
+      toks.drop i = lexAux false ln (printExpr first x₀ ++ rest.flatMap (fun p => w p.1 :: printExpr false p.2)) ++ post →
+      RT.Stop (chainExpr x₀ rest) ln post →
+      ∃ r, parseExpression toks false fuel ⟨i, d⟩ =
+          .ok r ⟨i + (lexAux false ln (printExpr first x₀ ++
+            rest.flatMap (fun p => w p.1 :: printExpr false p.2))).length, d⟩ ∧
+        r.e = chainExpr x₀ rest := by
+  obtain ⟨n, hn⟩ := C33.parse_print_stmt (RT.WT.ofChain (chain_wt x₀ rest (.ofClosed h0) hr))
+  refine ⟨n, ?_⟩
+  intro fuel ln first i post d toks hf hD hs
+  have := hn fuel ln first i post d toks hf (by rw [chain_print]; exact hD) hs
+  rw [chain_print] at this
+  exact this
+
 end C03
+
